@@ -52,10 +52,12 @@ func GetAdaptedReDKG(originalDKG *types.ReDKG) (*types.ReDKG, error) {
 	adaptedReDKG.Threshold = originalDKG.Threshold
 	adaptedReDKG.Messages = []storage.Message{}
 	var newOffset uint64
-	fixedSenders := map[string]struct{}{}
+	// a sender needs the self-confirmation once in every round of the dump it dealt in
+	type roundSender struct{ round, sender string }
+	fixedSenders := map[roundSender]struct{}{}
 	for _, m := range originalDKG.Messages {
-		if _, found := fixedSenders[m.SenderAddr]; !found && fsm.Event(m.Event) == dkg_proposal_fsm.EventDKGDealConfirmationReceived {
-			fixedSenders[m.SenderAddr] = struct{}{}
+		if _, found := fixedSenders[roundSender{m.DkgRoundID, m.SenderAddr}]; !found && fsm.Event(m.Event) == dkg_proposal_fsm.EventDKGDealConfirmationReceived {
+			fixedSenders[roundSender{m.DkgRoundID, m.SenderAddr}] = struct{}{}
 			workAroundMessage, err := createMessage(m)
 			if err != nil {
 				return nil, fmt.Errorf("failed to construct new message for adapted reinit DKG message:  %w", err)
